@@ -232,6 +232,10 @@ class EnumAnalysis:
 
     def contributions(self, e, env):
         """classify a list-valued expression"""
+        if isinstance(e, ast.GeneratorExp):
+            # a generator handed to extend / list(): the elements it yields are those of the comprehension
+            lc = ast.copy_location(ast.ListComp(elt=e.elt, generators=e.generators), e)
+            return self.contributions(lc, env)
         if isinstance(e, ast.Name) and e.id in env:
             k = env[e.id]
             if k[0] == 'list':
